@@ -23,7 +23,7 @@ def run(ctx):
     ctx.cov["distinct_nontrivial"] = stats[0]["nontrivial"]
     ctx.cov["traces_validated_against_impl"] = len(behs)
     ctx.cov["exhaustive"] = True
-    ctx.cov["rule"] = ("every behaviour of Carrier.tla: initial header lists of <=%d headers over keys {a,b,c} x values {x,y} (duplicate keys included) followed by every sequence of %d operations from Set/Get/Keys;"
+    ctx.cov["rule"] = ("every behaviour of Carrier.tla: initial header lists of <=%d headers over keys {a,A,b} (two keys differing only in case) x values {x,y} (duplicate keys included) followed by every sequence of %d operations from Set/Get/Keys;"
                        " replayed on kotel.RecordCarrier with the header list compared after each step; plus 12 records through inject->produce->kfake->fetch->extract."
                        " non-trivial = initial list with a duplicate key" % ((2, 3) if ctx.tier == "quick" else (3, 4)))
     ctx.notes["replayer"] = stats
